@@ -60,6 +60,9 @@ class IndexTok:
     def of(ex, index, node=None):
         if isinstance(index, IndexTok):
             return index
+        if isinstance(index, tuple) and len(index) >= 2 and all(isinstance(x, slice) or x is None for x in index):
+            while len(index) >= 2 and index[-1] == slice(None, None, None):
+                index = index[:-1]        # numpy: a trailing full slice selects the remaining axes whole - a[x, :] is a[x]
         if isinstance(index, tuple) and len(index) == 1 and (index[0] is None or isinstance(index[0], slice)):
             index = index[0]              # numpy: a[(x,)] is a[x]
         try:
@@ -444,14 +447,48 @@ ileft = z3.Function("ileft", Idx, Shp, Shp, Idx)         # the s-part of a posit
 iright = z3.Function("iright", Idx, Shp, Shp, Idx)       # the t-part
 
 
+index_column = z3.Const("index:(slice(None, None, None), None)", IndexExpr)     # the index expression [:, numpy.newaxis]
+
+
+def outer_axioms(ctx):
+    """numpy facts about a column (n, 1) and a row (1, m) made from 1-d arrays of shapes s = (n,) and t = (m,):
+    x[:, newaxis] has shape s + (1,) and element (i, 0) is x[i];  x[newaxis, :] is x[newaxis] (shape (1,) + t, element (0, j) is x[j]:
+    stack_axioms);  s + (1,) and (1,) + t broadcast to s + t with the projections (i, j) -> (i, 0) and (i, j) -> (0, j)."""
+    s, t = z3.Const(ctx.fresh("s"), Shp), z3.Const(ctx.fresh("t"), Shp)
+    i, j, k = (z3.Const(ctx.fresh(n), Idx) for n in "ijk")
+    one = shape1(z3.IntVal(1))
+    o = the_idx(one)
+    d1 = lambda s: ndim(s) == 1
+    return [z3.And(inshape(o, one), ndim(one) == 1),
+            z3.ForAll([k], z3.Implies(inshape(k, one), k == o), patterns=[inshape(k, one)]),
+            z3.ForAll([s], z3.Implies(d1(s), ishape(s, index_column) == sconcat(s, one)), patterns=[ishape(s, index_column)]),
+            z3.ForAll([s, i, k], z3.Implies(z3.And(d1(s), inshape(i, s), inshape(k, one)), imap(iconcat(i, k), s, index_column) == i),
+                      patterns=[imap(iconcat(i, k), s, index_column)]),
+            z3.ForAll([s, t], z3.Implies(z3.And(d1(s), d1(t)), z3.And(bok(sconcat(s, one), prepend(1, t)),
+                                                                     bshape(sconcat(s, one), prepend(1, t)) == sconcat(s, t))),
+                      patterns=[bshape(sconcat(s, one), prepend(1, t))]),
+            z3.ForAll([s, t, i, j], z3.Implies(z3.And(d1(s), d1(t), inshape(i, s), inshape(j, t)), z3.And(
+                proj(iconcat(i, j), sconcat(s, t), sconcat(s, one)) == iconcat(i, o),
+                proj(iconcat(i, j), sconcat(s, t), prepend(1, t)) == at0(0, j))),
+                patterns=[proj(iconcat(i, j), sconcat(s, t), sconcat(s, one)), proj(iconcat(i, j), sconcat(s, t), prepend(1, t))])]
+
+
 def concat_axioms(ctx):
     s, t = z3.Const(ctx.fresh("s"), Shp), z3.Const(ctx.fresh("t"), Shp)
     i, j, p = (z3.Const(ctx.fresh(n), Idx) for n in "ijp")
-    return [z3.ForAll([s, t, i, j], inshape(iconcat(i, j), sconcat(s, t)) == z3.And(inshape(i, s), inshape(j, t)),
+    # (only this direction: (1, 2) ++ () lies in (2,) + (3,) although (1, 2) does not lie in (2,))
+    return [z3.ForAll([s, t, i, j], z3.Implies(z3.And(inshape(i, s), inshape(j, t)), inshape(iconcat(i, j), sconcat(s, t))),
                       patterns=[inshape(iconcat(i, j), sconcat(s, t))]),
             z3.ForAll([s, t, p], z3.Implies(inshape(p, sconcat(s, t)), z3.And(
                 inshape(ileft(p, s, t), s), inshape(iright(p, s, t), t), iconcat(ileft(p, s, t), iright(p, s, t)) == p)),
-                patterns=[inshape(p, sconcat(s, t))])]
+                patterns=[inshape(p, sconcat(s, t))]),
+            # the two parts of (i ++ j) are i and j; () contributes nothing to a position
+            z3.ForAll([s, t, i, j], z3.Implies(z3.And(inshape(i, s), inshape(j, t)), z3.And(
+                ileft(iconcat(i, j), s, t) == i, iright(iconcat(i, j), s, t) == j)),
+                patterns=[ileft(iconcat(i, j), s, t)], ),
+            z3.ForAll([s, t, i, j], z3.Implies(z3.And(inshape(i, s), inshape(j, t)), iright(iconcat(i, j), s, t) == j),
+                      patterns=[iright(iconcat(i, j), s, t)]),
+            z3.ForAll([i], z3.And(iconcat(i, the_idx(shp0)) == i, iconcat(the_idx(shp0), i) == i))]
 
 
 class OuterProduct:
@@ -1087,6 +1124,22 @@ class Poly:
             p._val = lambda j: self.val(unravel_idx(j, s))
             p.view_of = self
             return p
+        if attr == "reshape" and len(args) == 1 and isinstance(args[0], ShapeV) and not kw and getattr(self, "outer_of", None) is not None:
+            # numpy.ndarray.reshape (ndpoly does not override it; C order) of an outer product to a.shape + b.shape: the element
+            # at (i ++ j) is the one at (position of i in a.ravel(), position of j in b.ravel())
+            a, b = self.outer_of
+            sa, sb, tgt = a.shape, b.shape, args[0].term
+            site = ex.site("outer_reshape")
+            ex.oblige(f"pre({site}).target_shape", tgt == sconcat(sa, sb), "precondition", node,
+                      note="only the reshape of outer(a, b) to a.shape + b.shape is modelled")
+            src = lambda p_: iconcat(ravel_idx(ileft(p_, sa, sb), sa), ravel_idx(iright(p_, sa, sb), sb))
+            r = Poly(ex.ctx, ex.ctx.fresh("reshaped"), self.N, self.D, self._row, lambda t, p_: self.C(t, src(p_)), tgt, self.dtype,
+                     self.names, self.region, None if self._init is None else (lambda t, p_: self.init(t, src(p_))))
+            r._frozen = lambda: (lambda t, p_, f=self.frozenC(): f(t, src(p_)))
+            r._val = lambda p_: self.val(src(p_))
+            r.view_of = self
+            r.outer_of = (a, b)
+            return r
         model = ex.reg.fn.get(f"numpoly.ndpoly.{attr}")
         if model is not None:
             if attr in getattr(ex.reg, "static_methods", ()):
